@@ -15,15 +15,32 @@ import os
 
 import vlib
 
-SPECIAL_FDS = [9, 10, 11, 20]
+# descriptor counts around the old (10) and the real (253 = SCM_MAX_FD = size of the control buffer) cap;
+# 254 cannot be attached to one sendmsg (the kernel refuses it), so 253 is the largest testable count
+SPECIAL_FDS = [9, 10, 11, 20, 252, 253]
 
 
 # ------------------------------------------------------------------ messages
 
 def gen_specs(r, n, serial0, thorough):
-    """message specs for the harness `build` command: typ,bo,arraylen,nfds,serial,tag"""
+    """message specs for the harness `build` command: typ,bo,arraylen,nfds,serial,tag[,u]
+    (u: descriptors attached but not referenced by the body - the body may be empty)"""
     specs = []
-    for i in range(n):
+
+    def add(typ, bo, alen, nfds, unref):
+        i = len(specs)
+        specs.append("%s,%s,%d,%d,%d,%s%s" % (typ, bo, alen, nfds, serial0 + i, "abcdefgh"[i % 8] * (1 + i % 3), ",u" if unref else ""))
+
+    # guaranteed members of the pool: every special descriptor count, descriptors on an EMPTY body,
+    # descriptors on a body that does not mention them
+    for k, nfds in enumerate(SPECIAL_FDS + ([100] if thorough else [])):
+        add(r.choice("cs"), "lB"[k % 2], r.choice([-1, 0, 17]), nfds, k % 3 == 2)
+    add("s", "l", -1, 1, True)
+    add("c", "B", -1, 3, True)
+    add("r", "l", -1, 2, True)
+    add("e", "B", 40, 2, True)
+    add("s", "B", 0, 1, True)
+    while len(specs) < n:
         typ = r.choice("cccssre")
         bo = r.choice("lB")
         k = r.random()
@@ -36,12 +53,20 @@ def gen_specs(r, n, serial0, thorough):
         k = r.random()
         if k < 0.55:
             nfds = 0
-        elif k < 0.92:
+        elif k < 0.94:
             nfds = r.randrange(1, 4)
         else:
-            nfds = r.choice(SPECIAL_FDS + ([253, 100] if thorough else []))
-        specs.append("%s,%s,%d,%d,%d,%s" % (typ, bo, alen, nfds, serial0 + i, "abcdefgh"[i % 8] * (1 + i % 3)))
+            nfds = r.choice(SPECIAL_FDS)
+        add(typ, bo, alen, nfds, nfds > 0 and r.random() < 0.3)
     return specs
+
+
+def gen_big_specs(r, thorough, serial0):
+    """bodies beyond 64 KiB (a length that does not fit 16 bits) and around 200 KiB"""
+    sizes = [65536 + r.randrange(0, 24), 204800 + r.randrange(0, 64)]
+    if thorough:
+        sizes += [65535 - 40, 65536, 65537, 70000, 131072 + 5, 150001, 262144 + 9]
+    return ["%s,%s,%d,%d,%d,big" % (r.choice("cs"), r.choice("lB"), n, r.choice([0, 0, 1, 2]), serial0 + i) for i, n in enumerate(sizes)]
 
 
 class Msg:
@@ -115,6 +140,22 @@ def writes_for(msgs, cuts):
     return evs
 
 
+CLIENT_OPS = ("g", "t", "T", "i", "r")
+
+
+def client(r, choices):
+    """one client operation as a list of events.  `t` (Duration 1 ms) is followed by a `g`: should the clock
+    of a 1 ms call run out before it has read what is queued, the non-blocking call reads it, so what later
+    operations see never depends on timing.  `x` stands for a call with a real deadline / none: Duration(5 s)
+    or Infinite, which the model keeps only where a whole message is already queued."""
+    c = r.choice(choices)
+    if c == "t":
+        return ["t", "g"]
+    if c == "x":
+        return [r.choice(["T", "i"])]
+    return [c]
+
+
 def interleave(r, writes, nmsgs, style):
     """client operations between the writes; always ends with enough get_next calls to drain"""
     evs = []
@@ -123,17 +164,22 @@ def interleave(r, writes, nmsgs, style):
         evs.append(w)
         since += 1
         if style == "after_each":
-            evs.append(r.choice(["g", "g", "r", "t"]))
+            evs += client(r, ["g", "g", "r", "t", "x"])
             since = 0
         elif style == "dense":
             if r.random() < 0.6:
                 for _ in range(r.choice([1, 1, 2, 3])):
-                    evs.append(r.choice(["g", "g", "r", "r", "t"]))
+                    evs += client(r, ["g", "g", "r", "r", "t", "x"])
                 since = 0
         elif style == "sparse":
             if r.random() < 0.08 or since >= 120:
                 for _ in range(r.choice([1, 2, 4])):
-                    evs.append(r.choice(["g", "r", "r", "t"]))
+                    evs += client(r, ["g", "r", "r", "t", "x"])
+                since = 0
+        elif style == "big":
+            # large writes: drain often enough that the peer's send buffer never fills
+            if since >= r.choice([1, 2, 3, 4]):
+                evs += client(r, ["g", "g", "r", "t", "x"])
                 since = 0
         elif style == "reads":
             for _ in range(r.choice([0, 1, 2, 3])):
@@ -145,6 +191,8 @@ def interleave(r, writes, nmsgs, style):
             if since >= 120:
                 evs.append("g")
                 since = 0
+    if r.random() < 0.3:
+        evs += client(r, ["x", "t"])
     evs += ["g"] * (nmsgs + 1)
     return evs
 
@@ -204,11 +252,32 @@ def pick_msgs(r, pool, k, maxlen=None):
 
 # ------------------------------------------------------------------ the property on the implementation's own output
 
-def property_verdict(tokens, msgs):
+def property_verdict(tokens, msgs, events=None):
     """None when the implementation's results satisfy C09 on this schedule (which always ends with all
     bytes written and more get_next calls than messages), else what fails"""
     want = ["M%s~%s" % (m.canon, "+".join("%d.%d" % (i, j) for j in range(m.nfds))) for i, m in enumerate(msgs)]
     got = [t for t in tokens if t.startswith("M")]
+    if events is not None:
+        # a call with a real deadline (5 s) or none at all, made when every byte of the next message had already
+        # been written, has to hand that message out
+        ends, p = [], 0
+        for m in msgs:
+            p += m.n
+            ends.append(p)
+        written = delivered = k = 0
+        for ev in events:
+            if ev[0] == "w":
+                written += int(ev[1:].split("f")[0])
+                continue
+            if k >= len(tokens):
+                break
+            t = tokens[k]
+            k += 1
+            if ev in ("T", "i") and delivered < len(ends) and written >= ends[delivered] and not t.startswith("M"):
+                return "get_next_message(%s) returned %s although all bytes of the next message were already queued" % (
+                    "Duration 5 s" if ev == "T" else "Infinite", "a time-out" if t == "T" else t[:40])
+            if t.startswith("M"):
+                delivered += 1
     for t in tokens:
         if t.startswith("E") or t.startswith("PANIC"):
             return "a receive call failed (%s) although the peer only wrote valid messages" % t.split(":")[0][:60]
@@ -233,12 +302,15 @@ def property_verdict(tokens, msgs):
 
 def expected_from_model(model_tokens, msgs):
     """translate the model's tokens (M<serial>;<body>~labels) to the harness vocabulary; returns
-    (tokens, which client ops must be downgraded t->g, problem)"""
+    (tokens, {index of client op: the op it must be replaced by}, problem)"""
     by_serial = {m.serial: m for m in msgs}
-    out, bang = [], []
+    out, bang = [], {}
     for k, t in enumerate(model_tokens):
-        if t.startswith("!"):
-            bang.append(k)
+        if t.startswith("!"):          # a T / i call that would not find a whole message: make it a non-blocking one
+            bang[k] = "g"
+            t = t[1:]
+        elif t.startswith("^"):        # a 1 ms call that finds a whole message on the socket: give it a real deadline
+            bang[k] = "T"
             t = t[1:]
         if t.startswith("M"):
             head, labels = t[1:].rsplit("~", 1)
@@ -256,7 +328,8 @@ def expected_from_model(model_tokens, msgs):
 
 def run_batch(ctx, exe, drv, scheds):
     lines = [s.line() for s in scheds]
-    ok, mout, err = vlib.par_run_lines(drv, [], lines)
+    # the extracted list functions are not tail recursive: frames of several hundred KiB need a deep stack
+    ok, mout, err = vlib.par_run_lines("/bin/sh", ["-c", "ulimit -s unlimited 2>/dev/null || ulimit -s 4000000; exec " + drv], lines)
     if not ok:
         ctx.tie_broken("extracted model driver c09 crashed", err)
         return
@@ -274,10 +347,10 @@ def run_batch(ctx, exe, drv, scheds):
             k = -1
             evs = list(s.events)
             for i, ev in enumerate(evs):
-                if ev[0] in "gtr":
+                if ev in CLIENT_OPS:
                     k += 1
                     if k in bang:
-                        evs[i] = "g"
+                        evs[i] = bang[k]
             s = Sched(s.msgs, evs, s.kind)
         exp.append(e)
         final.append(s)
@@ -294,23 +367,34 @@ def run_batch(ctx, exe, drv, scheds):
             continue
         toks = [] if io == "-" else io.split(",")
         nontrivial = s.cuts_inside() or any(m.nfds for m in s.msgs)
-        ctx.case(",".join(m.frame for m in s.msgs) + "|" + ",".join(s.events), nontrivial=nontrivial,
+        import hashlib
+        ctx.case(hashlib.blake2b(("".join(m.frame for m in s.msgs) + "|" + ",".join(s.events)).encode(), digest_size=12).hexdigest(), nontrivial=nontrivial,
                  sample={"kind": s.kind, "messages": [m.spec for m in s.msgs], "events": ",".join(s.events)[:400],
                          "results": [t[:1] if t.startswith("M") else t for t in toks]} if s.kind in ("random", "2cut") and len(s.events) < 40 else None)
         ctx.count("kind:" + s.kind)
         ctx.count("msgs:%d" % len(s.msgs))
         ctx.count("fds:" + ("none" if not any(m.nfds for m in s.msgs) else ("boundary" if any(m.nfds >= 9 for m in s.msgs) else "1-3")))
-        ctx.count("ops:t", sum(1 for ev in s.events if ev == "t"))
+        unref = [m for m in s.msgs if m.nfds and m.spec.endswith(",u")]
+        ctx.count("messages with descriptors on an empty body", sum(1 for m in unref if m.body == "-"))
+        ctx.count("messages with descriptors the body does not mention", len(unref))
+        for m in s.msgs:
+            if m.nfds >= 9:
+                ctx.count("descriptor count %d" % m.nfds)
+            if len(m.body) // 2 >= 65536:
+                ctx.count("messages with a body of 64 KiB or more")
+        ctx.count("ops:t (Duration 1 ms: nothing queued, or only part of a message)", sum(1 for ev in s.events if ev == "t"))
+        ctx.count("ops:T (Duration 5 s, whole message queued)", sum(1 for ev in s.events if ev == "T"))
+        ctx.count("ops:i (Infinite, whole message queued)", sum(1 for ev in s.events if ev == "i"))
         ctx.count("ops:r", sum(1 for ev in s.events if ev == "r"))
         ctx.count("ops:g", sum(1 for ev in s.events if ev == "g"))
         ctx.count("results:T", sum(1 for t in toks if t == "T"))
-        verdict = property_verdict(toks, s.msgs)
-        data = {"line": s.line(), "canons": [m.canon for m in s.msgs], "specs": [m.spec for m in s.msgs],
+        verdict = property_verdict(toks, s.msgs, s.events)
+        data = {"line": s.line(), "canons": [m.canon for m in s.msgs], "specs": [m.spec for m in s.msgs], "lens": [m.n for m in s.msgs],
                 "impl": [t[:200] for t in toks], "model": [t[:200] for t in e]}
         if verdict is not None:
             ctx.disagreements_checked += 1
             ctx.violation(verdict, data)
-        elif toks != e:
+        elif [("E" if t.startswith("E") else t) for t in toks] != [("E" if t.startswith("E") else t) for t in e]:
             ctx.disagreements_checked += 1
             diff = [k for k in range(max(len(toks), len(e))) if k >= len(toks) or k >= len(e) or toks[k] != e[k]]
             ctx.tie_broken("correspondence: implementation and model differ on a schedule on which the property itself is not violated "
@@ -366,13 +450,18 @@ def sched_from_case(line):
 
 def run(ctx):
     thorough = ctx.tier == "thorough"
-    ctx.rule = ("schedule = 1-5 messages built by the crate's MessageBuilder (bodies 0-300 bytes, 0-3 descriptors on any, "
-                "descriptor counts 9/10/11/20%s) x a chunking of the peer's writes (every single cut and %s 2-cuts of one short "
-                "message; all 1-byte; random compositions with cuts forced into fixed header/length fields; glued messages) x "
-                "client operations get_next_message(Nonblock), read_once(Nonblock), get_next_message(Duration 1ms) on an empty "
-                "socket, interleaved with the writes; every schedule ends with all bytes written and one more get_next than "
-                "messages. non-trivial = some write boundary lies strictly inside a frame or some message carries descriptors; "
-                "distinct = distinct (frames, event list)") % (", 100, 253" if thorough else "", "all" if thorough else "a third of the")
+    ctx.rule = ("schedule = 1-5 messages built by the crate's MessageBuilder (bodies 0-300 bytes; a separate stream with bodies of "
+                "64 KiB + k and about 200 KiB; 0-3 descriptors on any message, referenced by `h` values in the body or merely "
+                "attached - also to an EMPTY body; descriptor counts 9/10/11/20 and 252/253 = the kernel's per-sendmsg limit, each "
+                "count in at least three schedules) x a chunking of the peer's writes (every single cut and %s 2-cuts of one short "
+                "message; all 1-byte; random compositions with cuts forced into fixed header/length fields; glued messages; large "
+                "bodies in writes of up to 16000 bytes) x client operations get_next_message(Nonblock), read_once(Nonblock), "
+                "get_next_message(Duration 1 ms) where nothing or only part of a message is queued (always followed by a non-blocking "
+                "call so that later results cannot depend on when the clock ran out), get_next_message(Duration 5 s) and "
+                "get_next_message(Infinite) where the model says a whole message is already queued, interleaved with the writes; "
+                "every schedule ends with all bytes written and one more get_next than messages. non-trivial = some write boundary "
+                "lies strictly inside a frame or some message carries descriptors; distinct = distinct (frames, event list)") % (
+                    "all" if thorough else "a third of the")
     ctx.trusted = ["Coq 8.16.1 kernel (coqc), no native_compute", "extraction with ExtrOcamlBasic only, ocamlfind ocamlopt 4.13.1",
                    "ocaml/c09/driver.ml and harness/src/bin/c09.rs (I/O wrappers, peer and descriptor bookkeeping)",
                    "the decoder of the header-field array is abstract in the model (C06's subject); the harness compares all decoded header fields of delivered messages with those of the built ones"]
@@ -400,6 +489,30 @@ def run(ctx):
             Sched([sh], interleave(r, writes_for([sh], [a, b]), 1, "after_each"), "2cut")
             for a in range(1, sh.n) for b in range(a + 1, sh.n)]
     ctx.extra["short_message_bytes"] = [sh.n for sh in shorts]
+    # every special descriptor count and every message whose descriptors the body does not mention: at least
+    # one schedule each, whole / cut inside the fixed header / first bytes one by one
+    for m in pool:
+        if m.nfds >= 9 or m.spec.endswith(",u"):
+            other = r.choice([x for x in pool if x.nfds < 9])
+            scheds.append(Sched([m], interleave(r, writes_for([m], []), 1, "after_each"), "descriptors"))
+            scheds.append(Sched([m, other], interleave(r, writes_for([m, other], [r.randrange(1, 16), m.n - 1]), 2, "dense"), "descriptors"))
+            scheds.append(Sched([other, m], interleave(r, writes_for([other, m], range(other.n, other.n + 20)), 2, "reads"), "descriptors"))
+    run_batch(ctx, exe, drv, scheds)
+
+    # bodies whose length does not fit 16 bits / around 200 KiB, delivered in varied chunkings
+    big = build_pool(exe, gen_big_specs(r, thorough, 5000))
+    scheds = []
+    for _ in range(60 if thorough else 5):
+        b = r.choice(big)
+        msgs = [b]
+        if r.random() < 0.6:
+            msgs = [x for x in [r.choice(pool) if r.random() < 0.5 else None, b, r.choice(pool) if r.random() < 0.7 else None] if x is not None and x.nfds < 9]
+        total = sum(m.n for m in msgs)
+        cuts, p = set(), 0
+        while p < total:
+            p += r.choice([r.randrange(1, 40), r.randrange(1000, 16000), r.randrange(8000, 16000), 16000])
+            cuts.add(p)
+        scheds.append(Sched(msgs, interleave(r, writes_for(msgs, cuts), len(msgs), "big"), "big body"))
     run_batch(ctx, exe, drv, scheds)
 
     # kernel assumptions
@@ -427,11 +540,13 @@ def replay(ctx, body):
     nf = [] if parts[2] == "-" else [int(x) for x in parts[2].split(".")]
     msgs = []
     pos = 0
-    for canon, n in zip(data["canons"], nf):
+    for i, (canon, n) in enumerate(zip(data["canons"], nf)):
         m = RawMsg("", canon, n)
+        if "lens" in data:
+            m.n = data["lens"][i]
         msgs.append(m)
     toks = out[0].split(",") if out else []
-    why = property_verdict(toks, msgs) if not (out and out[0].startswith("SCHEDERR")) else None
+    why = property_verdict(toks, msgs, parts[3].split(",") if len(parts) > 3 and "lens" in data else None) if not (out and out[0].startswith("SCHEDERR")) else None
     print("events :", parts[3] if len(parts) > 3 else "")
     print("results:", [t[:80] for t in toks])
     if why:
